@@ -280,11 +280,11 @@ Qed.
 Lemma parse_au_single hi lo frame :
   parse_au (0 :: 16 :: hi :: lo :: frame) = Ok [((hi * 256 + N.land lo 248) / 8, 4)].
 Proof.
-  unfold parse_au. change ((0 * 256 + 16 + 7) / 8) with 2. change (2 / 2) with 1.
-  replace (N.min 1 (lenN (0 :: 16 :: hi :: lo :: frame))) with 1 by (unfold lenN; cbn [length]; lia).
+  unfold parse_au. change ((0 * 256 + 16 + 7) / 8) with 2. change (2 / 2) with 1. change (2 + 2) with 4.
+  replace (lenN (0 :: 16 :: hi :: lo :: frame) <? 4) with false by (unfold lenN; cbn [length]; lia).
   change (N.to_nat 1) with 1%nat. cbn [parse_au_loop].
   change (N.to_nat 2) with 2%nat. change (N.to_nat (2 + 1)) with 3%nat. cbn [nth_error bind].
-  reflexivity.
+  change (1 <? 1) with false. reflexivity.
 Qed.
 
 Lemma aac_size_field n : n < 8192 ->
